@@ -59,7 +59,7 @@ inductive Err
 
 structure PS where
   setup : List Nat := []            -- `setup_layers`, insertion order
-  trace : List Ev := []             -- most recent first
+  trace : List Ev := []             -- oldest first
   ran : Nat := 0
   failures : List Nat := []         -- test ids (failures and unexpected successes)
   errors : List Err := []
@@ -67,7 +67,7 @@ structure PS where
   aborted : Bool := false
   interrupted : Bool := false
 
-def PS.emit (s : PS) (e : Ev) : PS := { s with trace := e :: s.trace }
+def PS.emit (s : PS) (e : Ev) : PS := { s with trace := s.trace ++ [e] }
 
 def countSetUp (l : Nat) : List Ev → Nat
   | [] => 0
@@ -136,7 +136,7 @@ def runIterations (w : World) (o : Opts) (l : Nat) (tests : List TestDef) : Nat 
   | n + 1, s =>
     let c := resultCfg w o l
     let r := runTests c tests {}
-    let s := { s with trace := r.evs.map Ev.test ++ s.trace }
+    let s := { s with trace := s.trace ++ r.evs.map Ev.test }
     if r.aborted then { s with aborted := true }
     else if r.interrupted then { s with interrupted := true }
     else
@@ -212,24 +212,28 @@ structure Outcome where
   interrupted : Bool
   leftover : List Nat        -- `setup_layers` at the very end (always empty unless aborted)
 
-/-- `Runner.run_tests` of one process.  `childBad l` tells whether the child for layer `l` ends up
+/-- the final state of `Runner.run_tests`.  `childBad l` tells whether the child for layer `l` ends up
 reporting a failure or an error (only its effect on the parent's stop-on-error decision is modelled
 here; the children's results are merged by the harness / `Model.Channel`). -/
-def runProcess (w : World) (o : Opts) (childBad : Nat → Bool) : Outcome :=
+def finalState (w : World) (o : Opts) (childBad : Nat → Bool) : PS :=
   let layers := orderedLayers w o
-  let s0 : PS := {}
   -- the parent of a `-j N` run first "runs" the empty layer
   let parentJ := o.processes > 1 && o.resume.isNone
-  let s0 := if parentJ then s0.emit (.summary 0 0 w.importErrors 0) else s0
+  let s0 : PS := if parentJ then ({} : PS).emit (.summary 0 0 w.importErrors 0) else {}
   let r := if parentJ then (s0, layers) else layerLoop w o layers s0
-  let s := r.1
-  let s :=
-    if s.aborted || s.interrupted then s
-    else
-      let s := if o.resume.isNone then spawnAll o childBad r.2 (if o.processes > 1 then 1 else 0) s else s
-      (tearDownUnneeded w [] true s).1
-  { trace := s.trace.reverse, ran := s.ran, failures := s.failures, errors := s.errors, skipped := s.skipped,
+  if r.1.aborted || r.1.interrupted then r.1
+  else
+    let s := if o.resume.isNone then spawnAll o childBad r.2 (if o.processes > 1 then 1 else 0) r.1 else r.1
+    (tearDownUnneeded w [] true s).1
+
+/-- `self.failed = bool(self.import_errors or self.failures or self.errors)` and what is reported -/
+def outcomeOf (w : World) (s : PS) : Outcome :=
+  { trace := s.trace, ran := s.ran, failures := s.failures, errors := s.errors, skipped := s.skipped,
     failed := w.importErrors > 0 || !s.failures.isEmpty || !s.errors.isEmpty,
     aborted := s.aborted, interrupted := s.interrupted, leftover := s.setup }
+
+/-- `Runner.run_tests` of one process -/
+def runProcess (w : World) (o : Opts) (childBad : Nat → Bool) : Outcome :=
+  outcomeOf w (finalState w o childBad)
 
 end Ztr.Runner
